@@ -131,11 +131,37 @@ def ev_concat(a, b):
     return {"op": "concat", "a": a, "b": b, "res": outcome(lambda: mk(a).concatenate(mk(b)))}
 
 
+def held(name):
+    """octets the object actually holds (a label left as str is reported through allbytes)"""
+    return [list(x) if isinstance(x, bytes) else list(x.encode()) for x in name.labels]
+
+
+STR_CHARS = {1: "a", 2: "\u00e9", 3: "\u20ac", 4: "\U0001f600"}
+
+
 def ev_construct(ls):
-    return {"op": "construct", "ls": ls, "res": outcome(lambda: dns.name.Name([bytes(x) for x in ls]))}
+    ev = {"op": "construct", "ls": ls, "allbytes": True, "res": outcome(lambda: dns.name.Name([bytes(x) for x in ls]), held)}
+    return ev
 
 
-EVENTS = {"derived": ev_derived, "concat": ev_concat, "construct": ev_construct, "pair": ev_pair, "name": ev_name, "rel": ev_rel, "neigh": ev_neigh, "sorted": ev_sorted,
+def ev_construct_str(spec, absolute, mixed):
+    """Name(...) from `str` labels: spec = [[w, k], ...] = k characters of w UTF-8 octets each;
+    mixed: every second label is passed as bytes instead"""
+    labels = [STR_CHARS[w] * k for w, k in spec] + ([""] if absolute else [])
+    if mixed:
+        labels = [x.encode() if i % 2 else x for i, x in enumerate(labels)]
+    ls = [list(x.encode()) if isinstance(x, str) else list(x) for x in labels]
+    box = {}
+
+    def build():
+        box["n"] = dns.name.Name(labels)
+        return box["n"]
+    res = outcome(build, held)
+    allbytes = all(isinstance(x, bytes) for x in box["n"].labels) if "n" in box else True
+    return {"op": "construct", "ls": ls, "src": [spec, absolute, mixed], "allbytes": allbytes, "res": res}
+
+
+EVENTS = {"construct_str": ev_construct_str, "derived": ev_derived, "concat": ev_concat, "construct": ev_construct, "pair": ev_pair, "name": ev_name, "rel": ev_rel, "neigh": ev_neigh, "sorted": ev_sorted,
           "deepest": ev_deepest}
 
 
